@@ -31,4 +31,12 @@ PROPS = {
          'non-trivial = tree has an operator/call/array node',
     trusted=[FLOAT_TB, 'the recording Environment of the harness (harness/src/env.rs) logs exactly the variable() and call() invocations'],
  ),
+ 'C12': dict(
+    modules=['SlacProps.C12'],
+    streams=[dict(name='json', n=n(60000, 2000000), oracle='none', laws=['json_same'])],
+    rule='json: source-expressible, optimizer-shaped and arbitrary ill-formed trees (depth<=3) with literals from the boundary pool '
+         '(random bit patterns, subnormals, -0, 2^53+1, 1e300, NaN, infinities) and Unicode string pools; the canonical JSON value is compared with the model, '
+         'and both round-trip routes (serde_json::Value, text) are checked bit-exactly on the real crate. non-trivial = tree has an operator/call/array node',
+    trusted=['serde_json (built with float_roundtrip) prints and parses the JSON data model faithfully; serde derive implements the documented internally-tagged representation'],
+ ),
 }
